@@ -42,6 +42,8 @@ type World struct {
 	// HTTPPolicy decides the fate of an outbound http request from a
 	// node. nil = serve.
 	HTTPPolicy func(from, to string, req *http.Request) HTTPAction
+	// HTTPObserve sees every outbound request that a peer served.
+	HTTPObserve func(to *ServerNode, req *http.Request, body []byte, status int)
 	// DialPolicy decides the fate of a tcp dial. nil = connect.
 	DialPolicy func(address string) DialAction
 
@@ -500,6 +502,9 @@ func (fabricTransport) RoundTrip(req *http.Request) (*http.Response, error) {
 	}
 	w.Probe("http.peer-served")
 	code, rb := n.serve(req.Method, req.URL.RequestURI(), body, req.Header)
+	if w.HTTPObserve != nil {
+		w.HTTPObserve(n, req, body, code)
+	}
 	return &http.Response{StatusCode: code, Status: strconv.Itoa(code) + " " + http.StatusText(code), Body: io.NopCloser(bytes.NewReader(rb)), Header: http.Header{}, Request: req, Proto: "HTTP/1.1", ProtoMajor: 1, ProtoMinor: 1, ContentLength: int64(len(rb))}, nil
 }
 
